@@ -563,7 +563,7 @@ class Case:
             elif st[0] == 'finish':
                 j = wk[st[1]]
                 wk[st[1]] = None
-                outq.append(['ready', j, None, True, j])
+                outq.append(['ready', j, None, j not in spec.get('bad', ()), j])
             else:
                 ev = outq.pop(0)
             if ev is not None:
